@@ -276,12 +276,15 @@ static std::vector<int> sigs_for(int keyt, int v) {
     }
     return r;
 }
-static bool ident_ok_for(int ident, int kx, int v, bool as_client) {
+static bool ident_ok_for(int ident, int kx, int v, bool as_client, bool mx_is_client) {
     const IdentD &d = ALL_IDENTS[ident];
     if (as_client ? !G.ident_cli[ident] : !G.ident_srv[ident]) return false;
     bool pre12 = (v == TLS11 || v == DTLS10);
     if ((d.keyt == KT_ED25519 || d.keyt == KT_RSAPSS) && v != TLS13) return false;          // MatrixSSL advertises these schemes for TLS 1.3 only
     if (pre12 && strcmp(d.chain_sig, "rsa_pss_rsae_sha256") == 0) return false;               // PSS-signed chain needs signature_algorithms
+    // A MatrixSSL TLS<=1.2 *server* only maps the legacy {hash,sig} pairs of the client's signature_algorithms; with a PSS-signed chain it
+    // declines (handshake_failure), which RFC 5246 7.4.2 permits.  So that identity is offered to it in TLS 1.3 only.
+    if (!as_client && !mx_is_client && v != TLS13 && strcmp(d.chain_sig, "rsa_pss_rsae_sha256") == 0) return false;
     if (as_client) return true;                                                               // any client key can sign CertificateVerify
     switch (kx) {
     case KX_RSA: return d.keyt == KT_RSA;
@@ -322,13 +325,13 @@ static Case draw_case(Tape &t) {
     // server identity
     k.sident = -1;
     if (sd.kx != KX_PSK) {
-        std::vector<int> ids; for (size_t i = 0; i < N_IDENTS; i++) if (ident_ok_for((int) i, sd.kx, k.ver, false)) { ids.push_back((int) i); if (i < 2) { ids.push_back((int) i); ids.push_back((int) i); } }
+        std::vector<int> ids; for (size_t i = 0; i < N_IDENTS; i++) if (ident_ok_for((int) i, sd.kx, k.ver, false, k.mx_client)) { ids.push_back((int) i); if (i < 2) { ids.push_back((int) i); ids.push_back((int) i); } }
         k.sident = wpick(t, ids);
     }
     // client authentication
     k.cauth = sd.kx != KX_PSK && t.below(3) == 1; k.cident = 0;
     if (k.cauth) {
-        std::vector<int> ids; for (size_t i = 0; i < N_IDENTS; i++) if (ALL_IDENTS[i].cli && ident_ok_for((int) i, sd.kx, k.ver, true)) { ids.push_back((int) i); if (i < 2) { ids.push_back((int) i); ids.push_back((int) i); } }
+        std::vector<int> ids; for (size_t i = 0; i < N_IDENTS; i++) if (ALL_IDENTS[i].cli && ident_ok_for((int) i, sd.kx, k.ver, true, k.mx_client)) { ids.push_back((int) i); if (i < 2) { ids.push_back((int) i); ids.push_back((int) i); } }
         k.cident = wpick(t, ids);
     }
     // key-exchange group
@@ -407,6 +410,12 @@ static std::vector<uint16_t> sigs_list_mx(int first, int ver) {
     return v;
 }
 
+static bool g_debug = false;
+static void dump(const char *dir, const Bytes &b) {
+    fprintf(stderr, "   %s %zu bytes:", dir, b.size());
+    for (auto &r : parse_records(b, false)) fprintf(stderr, " [type %d ver %04x len %zu]", r.type, r.ver, r.len);
+    fprintf(stderr, "\n");
+}
 struct Link {
     Endpoint M; std::unique_ptr<OsslConn> O;
     const Case *k = nullptr;
@@ -415,10 +424,10 @@ struct Link {
         bool moved = false;
         M.pump_out(k->piece);
         if (dtls) { while (!M.dgram_out.empty()) { O->feed_dgram(M.dgram_out.front()); M.dgram_out.pop_front(); moved = true; } }
-        else if (!M.wire_out.empty()) { Bytes b = M.take_wire(); O->feed(b.data(), b.size()); moved = true; }
+        else if (!M.wire_out.empty()) { Bytes b = M.take_wire(); if (g_debug) dump("M>O", b); O->feed(b.data(), b.size()); moved = true; }
         if (!O->failed()) { if (!O->handshake_done()) O->handshake(); if (O->handshake_done() && !O->failed()) O->read_all(); }
         if (dtls) { for (auto &d : O->take_dgrams()) { if (M.ssl && !M.failed) M.feed_dgram(d); moved = true; } }
-        else { Bytes o = O->take_out(); if (!o.empty()) { if (M.ssl && !M.failed) M.feed(o, k->chunk); moved = true; } }
+        else { Bytes o = O->take_out(); if (!o.empty()) { if (g_debug) dump("O>M", o); if (M.ssl && !M.failed) { int rc = M.feed(o, k->chunk); if (g_debug) fprintf(stderr, "   M.feed -> rc=%d complete=%d failed=%d\n", rc, (int) M.hs_complete(), (int) M.failed); } moved = true; } }
         return moved;
     }
     void settle(int max = 400) { for (int i = 0; i < max; i++) if (!step()) break; }
@@ -446,6 +455,11 @@ static void probe_rfc5746() {
     G.text += "rfc5746 probe handshake did not complete; assuming not supported\n";
 }
 
+static std::string ev_str(const Endpoint &M) {
+    std::string s; size_t n = M.events.size();
+    for (size_t i = n > 10 ? n - 10 : 0; i < n; i++) s += fmt("%s(%d:%d,%d)", i ? " " : "", M.events[i].kind, M.events[i].a, M.events[i].b);
+    return s;
+}
 static std::string alerts_str(const OsslConn &o) {
     std::string s;
     for (auto &a : o.alerts()) s += fmt("%s%s:%d/%d", s.empty() ? "" : ",", a.sent ? "ossl-sent" : "ossl-recv", a.level, a.desc);
@@ -496,7 +510,8 @@ static void prop(Tape &t, Ctx &c) {
         std::string s;
         if (with_hrr_first && k.hrr_first >= 0) s = ALL_GROUPS[k.hrr_first].ossl;
         if (g) { if (!s.empty()) s += ":"; s += g->ossl; }
-        for (int cg : cert_groups) if (!g || cg != k.group) { if (!s.empty()) s += ":"; s += ALL_GROUPS[cg].ossl; }
+        std::vector<int> seen; if (g) seen.push_back(k.group); if (with_hrr_first && k.hrr_first >= 0) seen.push_back(k.hrr_first);
+        for (int cg : cert_groups) if (std::find(seen.begin(), seen.end(), cg) == seen.end()) { seen.push_back(cg); if (!s.empty()) s += ":"; s += ALL_GROUPS[cg].ossl; }
         return s;
     };
     // OpenSSL client: first listed group = its only key_share; OpenSSL server: supports only the target group, so a first share on another group forces HRR
@@ -607,7 +622,7 @@ static void prop(Tape &t, Ctx &c) {
             if (msg.first == 0) {
                 if (b.empty() && dtls) continue;
                 int rc = mx_send_all(L.M, b, (idx & 1) != 0, k.piece);
-                VF_CHECK(rc >= 0, "matrixssl-encode-failed", "conn %d: encoding %zu application bytes returned %d; %s", conn, b.size(), rc, desc.c_str());
+                VF_CHECK(rc >= 0, "matrixssl-encode-failed", "conn %d: encoding %zu application bytes returned %d (events: %s; openssl alerts %s); %s", conn, b.size(), rc, ev_str(L.M).c_str(), alerts_str(*L.O).c_str(), desc.c_str());
                 m2o.insert(m2o.end(), b.begin(), b.end());
             } else {
                 if (dtls && b.size() > 1000) b.resize(1000);
@@ -677,5 +692,6 @@ namespace vf { void vf_global_init(int, char **) {
     build_caps();
     probe_rfc5746();
     g_keyupdate = getenv("C10_KEYUPDATE") != nullptr;
+    g_debug = getenv("C10_DEBUG") != nullptr;
     if (getenv("C10_PRINT_CAPS")) fprintf(stderr, "%s", G.text.c_str());
 } }
